@@ -1,12 +1,15 @@
 package main
 
 import (
+	"context"
 	"encoding/json"
 	"flag"
 	"fmt"
+	"github.com/simpleiot/simpleiot/server"
 	"math/rand"
 	"os"
 	"sort"
+	"strconv"
 	"strings"
 	"sync"
 	"sync/atomic"
@@ -290,9 +293,66 @@ func init() {
 				res.sample(map[string]any{"history": h, "first_events": events[:min(len(events), 12)], "final": final}, 2)
 			}
 		}
+		// ---- shutdown at every moment of the start-up: Stop called d after Run was started must make Run
+		// return, and the store file must open again (the load above only ever stops a settled instance)
+		for _, d := range []time.Duration{0, time.Millisecond, 5 * time.Millisecond, 20 * time.Millisecond, 60 * time.Millisecond, 200 * time.Millisecond} {
+			if what := c20StopDuringStart(d); what != "" {
+				if strings.HasPrefix(what, "infra:") {
+					res.Extra["stop_during_start_not_run"] = what
+				} else {
+					res.fail(Failure{Finding: "stop-during-start", What: what})
+				}
+			}
+			total++
+		}
 		res.Evaluations = total
 		res.Traces = *histories
 		res.DistinctNontrivial = *histories
 		return res.write(*out)
 	}
+}
+
+// c20StopDuringStart starts an instance the production way and calls Stop after the given delay
+// (after WaitStart for delay 0).
+func c20StopDuringStart(delay time.Duration) string {
+	dir, err := os.MkdirTemp("", "verif-c20-stop-")
+	if err != nil {
+		return "infra: " + err.Error()
+	}
+	defer os.RemoveAll(dir)
+	ports, err := freePorts(4)
+	if err != nil {
+		return "infra: " + err.Error()
+	}
+	opts := server.Options{StoreFile: dir + "/siot.sqlite", NatsPort: ports[0], HTTPPort: strconv.Itoa(ports[1]), NatsHTTPPort: ports[2],
+		NatsWSPort: ports[3], NatsServer: fmt.Sprintf("nats://127.0.0.1:%d", ports[0]), ID: "stop-inst"}
+	s, nc, err := server.NewServer(opts)
+	if err != nil {
+		return "infra: NewServer: " + err.Error()
+	}
+	done := make(chan error, 1)
+	go func() { done <- s.Run() }()
+	if delay == 0 {
+		ctx, cancel := context.WithTimeout(context.Background(), 10*time.Second)
+		err := s.WaitStart(ctx)
+		cancel()
+		if err != nil {
+			return "infra: WaitStart: " + err.Error()
+		}
+	} else {
+		time.Sleep(delay)
+	}
+	s.Stop(nil)
+	select {
+	case <-done:
+	case <-time.After(20 * time.Second):
+		return fmt.Sprintf("Stop called %v after the instance was started is lost: Run has not returned 20 s later", delay)
+	}
+	nc.Close()
+	in2, err := startInstance(instOpts{dir: dir, id: "stop-inst"})
+	if err != nil {
+		return fmt.Sprintf("after Stop %v into the start-up the store file does not open again: %v", delay, err)
+	}
+	in2.stop(false)
+	return ""
 }
